@@ -144,13 +144,27 @@ class GenX(F.Gen):
     # ---- statements
     def acceptable(self, ss):
         for s in _flat(ss):
+            if s['s'] == 'if' and len(s['conds']) > 1 and 'fnelseif' not in self.f and \
+                    any(c['f'] in self.user_functions for c in call_exprs(s['conds'][1:])):
+                return False
             if s['s'] == 'print' and self.no_print:
                 return False
             if s['s'] == 'assign' and s['lhs']['name'] in self.forbid_write:
                 return False
         return True
 
+    user_functions = ()
+
     def stmt(self, d):
+        if 'fnwhile' in self.f and self.fn_leaves and 'w' not in self.active_loops and d > 0 and self.rng.random() < 0.25:
+            # DO WHILE whose condition references a function
+            self.active_loops.append('w')
+            self.loop_range['w'] = (0, 3)
+            body = self.block(d - 1, self.rng.randint(1, 2)) + [assign(V('w'), op('sum', V('w'), N(1)))]
+            self.active_loops.pop()
+            fc = self.rng.choice(self.fn_leaves)(self, ['w', 'n', 'm'])
+            cond = op('and', cmp_('<', V('w'), N(self.rng.randint(1, 3))), cmp_(self.rng.choice(['<', '>=', '/=']), fc, N(self.rng.choice([1, 2, 3]))))
+            return [assign(V('w'), N(0)), {'s': 'while', 'cond': cond, 'body': body}]
         for _ in range(20):
             ss = super().stmt(d)
             if self.acceptable(ss):
@@ -277,12 +291,18 @@ class GenX(F.Gen):
 
     def fun_call(self, h, scalars):
         args = []
-        for a in h['unit']['args']:
-            s = {v: k for k, v in h['nm'].items()}[a]
-            if s == 'ia':
-                args.append(V(self.rng.choice(self.int_arrays_here())))
-            else:
-                args.append(self.int_expr(1, scalars))
+        saved = self.xdepth
+        if 'fnnest' not in self.f:
+            self.xdepth = 99          # no function references inside the arguments of a function reference
+        try:
+            for a in h['unit']['args']:
+                s = {v: k for k, v in h['nm'].items()}[a]
+                if s == 'ia':
+                    args.append(V(self.rng.choice(self.int_arrays_here())))
+                else:
+                    args.append(self.int_expr(1, scalars))
+        finally:
+            self.xdepth = saved
         return call(h['name'], *args)
 
     def sub_call(self, h):
@@ -361,6 +381,7 @@ class GenX(F.Gen):
         return ([raw('!$loki inline')] if marked else []) + [st]
 
     nest_marked = False
+    fn_leaves = ()
     p_marked = 0.75
     const_leaves = ()
 
@@ -417,7 +438,9 @@ class GenX(F.Gen):
             for kx in range(rng.choice([1, 2, 2])):
                 sfs.append(self.derive_stmtfunc(f'sf{kx + 1}', sfs, funs))
         self.helpers = [h for h in subs + ints if 'mkcall' in h]
-        self.leaf_extra = [h['mkleaf'] for h in funs + ints if 'mkleaf' in h] + [h['mkleaf'] for h in sfs] + list(self.const_leaves)
+        self.fn_leaves = [h['mkleaf'] for h in funs + ints if 'mkleaf' in h]
+        self.user_functions = {h['name'] for h in funs + ints + sfs if 'mkleaf' in h}
+        self.leaf_extra = self.fn_leaves + [h['mkleaf'] for h in sfs] + list(self.const_leaves)
         self.p_extra = self.p_leaf if self.leaf_extra else 0.0
         if self.helpers:
             self.f.add('call')
@@ -673,6 +696,32 @@ F.RENDERERS['inline'] = render
 
 
 # ----------------------------------------------------------------------------- Loki drivers
+TRANSFORM_TIMEOUT = int(__import__("os").environ.get("VERIF_TF_TIMEOUT", "90"))     # seconds; a transformation that does not return is a failure class
+
+
+def guarded(fn):
+    """Run a transformation under a SIGALRM watchdog (behaviour_check calls it in the main thread)."""
+    import functools
+    import signal
+    import threading
+
+    @functools.wraps(fn)
+    def run(text, prog, workdir):
+        if threading.current_thread() is not threading.main_thread():
+            return fn(text, prog, workdir)
+
+        def on_alarm(signum, frame):
+            raise TimeoutError(f'transformation did not return within {TRANSFORM_TIMEOUT} s')
+        old = signal.signal(signal.SIGALRM, on_alarm)
+        signal.alarm(TRANSFORM_TIMEOUT)
+        try:
+            return fn(text, prog, workdir)
+        finally:
+            signal.alarm(0)
+            signal.signal(signal.SIGALRM, old)
+    return run
+
+
 class Parsed:
     """The program's modules parsed by Loki one by one (later modules see earlier ones as definitions)."""
 
@@ -737,6 +786,7 @@ def calls_to(prog, pred, within=None):
 
 
 def tf_marked(adjust_imports=True):
+    @guarded
     def transform(text, prog, workdir):
         from loki.transformations.inline import inline_marked_subroutines
         if not has_marked(prog):
@@ -748,6 +798,7 @@ def tf_marked(adjust_imports=True):
     return transform
 
 
+@guarded
 def tf_internal(text, prog, workdir):
     from loki.transformations.inline import inline_internal_procedures
     if not calls_to(prog, lambda u: u['host'] and not u.get('stmtfunc')):
@@ -760,6 +811,7 @@ def tf_internal(text, prog, workdir):
 def tf_functions(explicit=True):
     """inline_functions on every routine, callees first.  explicit: pass the module functions of the program as
     `functions=` (the default functions=None trips over intrinsic references, slice functions-all)."""
+    @guarded
     def transform(text, prog, workdir):
         from loki.transformations.inline import inline_functions
         if not calls_to(prog, lambda u: u['kind'] == 'function' and not u['host']):
@@ -775,6 +827,7 @@ def tf_functions(explicit=True):
     return transform
 
 
+@guarded
 def tf_elemental(text, prog, workdir):
     from loki.transformations.inline import inline_elemental_functions
     if not calls_to(prog, lambda u: u.get('elemental')):
@@ -785,6 +838,7 @@ def tf_elemental(text, prog, workdir):
     return p.sources()
 
 
+@guarded
 def tf_stmtfunc(text, prog, workdir):
     from loki.transformations.inline import inline_statement_functions
     if not calls_to(prog, lambda u: u.get('stmtfunc')):
@@ -795,6 +849,7 @@ def tf_stmtfunc(text, prog, workdir):
 
 
 def tf_constants(external_only=True):
+    @guarded
     def transform(text, prog, workdir):
         from loki.transformations.inline import inline_constant_parameters
         kernel = prog['units'][0]
@@ -809,6 +864,7 @@ def tf_constants(external_only=True):
 
 
 def tf_transformation(**opts):
+    @guarded
     def transform(text, prog, workdir):
         from loki.transformations.inline import InlineTransformation
         p = Parsed(prog)
@@ -820,6 +876,7 @@ def tf_transformation(**opts):
 
 
 def tf_outline(via='function'):
+    @guarded
     def transform(text, prog, workdir):
         from loki.transformations.extract import outline_pragma_regions, ExtractTransformation
         if not any(s['s'] == 'raw' and s['text'].startswith('!$loki outline') for s in _flat(prog['units'][0]['body'])):
@@ -835,6 +892,7 @@ def tf_outline(via='function'):
 
 
 def tf_extract(via='function'):
+    @guarded
     def transform(text, prog, workdir):
         from loki.transformations.extract import extract_internal_procedures, ExtractTransformation
         if not any(u['host'] for u in prog['units']):
